@@ -335,6 +335,7 @@ def intercepted_body(pspec, stats):
         prob = build(pspec["problem"])
         cfg = pspec["cfg"]
         upd = "identity" if pspec.get("upd") else None
+    eps_given = float(cfg.get("eps_SY", EPS))
     with intercept(("update_lbfgs_matrices",)) as rec:
         tr = run_min(prob, cfg, update_fun_def=upd)
     calls = rec.get("update_lbfgs_matrices", [])
@@ -351,6 +352,12 @@ def intercepted_body(pspec, stats):
         if "exc" in e:
             continue
         Xa, Ga = e["X_after"], e["G_after"]
+        # the candidate of this call was stored iff it appears as the newest point afterwards: it must then
+        # satisfy the curvature condition with the threshold the *user* gave (eps_SY)
+        if len(Xa) >= 2 and len(Xb) >= 1 and not any(np.array_equal(Xa[-1], q) for q in Xb):
+            sn, yn = Xa[-1] - Xa[-2], Ga[-1] - Ga[-2]
+            require(float(sn @ yn) > eps_given * float(yn @ yn) - 64 * EPS * float(np.linalg.norm(sn) * np.linalg.norm(yn)), "stored-pairs-satisfy-curvature",
+                    f"[in-run] call {k}: a pair with s.y={float(sn @ yn)!r} <= eps_SY*y.y={eps_given * float(yn @ yn)!r} (eps_SY={eps_given!r}) was stored")
         mats = e["out"]
         maxcor = e["args"][4]
         n = Xa[0].size
@@ -385,6 +392,9 @@ def run_strategy(draw):
     from vf.specs import ALL_FAMILIES
 
     r = draw(run_spec(families=ALL_FAMILIES, n_max=8, jac_modes=("callable",), maxiter=(1, 25), maxfun=(3, 150), small_ls=draw(st.booleans()), ftols=(0.0,), gtols=(1e-8,)))
+    eps_sy = draw(st.sampled_from([None, None, 1e-3, 0.03, 0.1]))
+    if eps_sy is not None:
+        r["cfg"]["eps_SY"] = eps_sy
     return {"problem": r["problem"], "cfg": r["cfg"], "upd": draw(st.booleans())}
 
 
